@@ -42,6 +42,16 @@ func mailbox.writeFileAtomic(filename, data, perm) (err)
   ensures published: err == nil ==> gRenamed
   ensures write-error: gWriteErr != nil ==> err == gWriteErr && !gRenamed
 
+# SetUnread rewrites the message file named by the X-FilePath header, through the atomic
+# helper only.  (X-FilePath is set by OpenMessage to the path the message was read from:
+# a file, not a directory - call-site assumption.)
+func mailbox.SetUnread(msg, unread) (err)
+  props C11
+  requires msg: msg != nil
+  forbid os.
+  forbid ioutil.
+  call fbb.(Header).Get#1 assume names-a-file: len($r0) > 0 ==> len(baseName($r0)) > 0
+
 func mailbox.(*DirHandler).AddOut(h, msg) (err)
   props C11 C10
   requires msg: msg != nil
